@@ -83,7 +83,7 @@ PROPS = {
         "assumptions": ["hang = no return within 20 s"],
     },
     "C08": {
-        "corr": [("manifests", {"quick": 1500, "thorough": 30000}), ("barrier", {"quick": 80, "thorough": 1500})],
+        "corr": [("manifests", {"quick": 1500, "thorough": 30000}), ("barrier", {"quick": 80, "thorough": 1500}), ("templatecli", {"quick": 60, "thorough": 600})],
         "trusted_base": [
             "modelled, not verified: YAML decoding of document heads (sigs.k8s.io/yaml; heads are supplied to the model by the harness), Go regexp engine (the separator regexp is re-implemented by hand and tied by correspondence), text/template (literal templates only), sync.WaitGroup semantics (barrier model; tied to kube.Client.Create by validating observed arrival/completion sequences of held create requests against the model's `accepts`, and by the regenerated shape of the batchPerform loop)",
         ],
@@ -148,6 +148,7 @@ PROPS = {
         "corr": [("conc", {"quick": 900, "thorough": 6000}), ("racecheck", {"quick": 2, "thorough": 8})],
         "race_build": True,
         "trusted_base": [
+            'history limits: not in the interleaving model; driven as monitor-only cases (every seventh case); the pruning choice is modelled separately (toDeleteBelow) with the bound regenerated from storage.go; two shapes under a history limit are recorded open findings (pruned-revision-reused, loser-not-found)',
             "modelled, not verified: atomicity of one driver call (Create is create-if-absent: the memory driver's mutex, the API server's AlreadyExists for Secrets/ConfigMaps -- here client-go's fake clientset), the goroutine scheduler (the harness imposes the schedule at gates placed before every storage call and the cluster mutation; what happens between two gated calls of one operation is one step), faults and history limits (none in this model: pruning deletes records), install --replace, rollback and uninstall as concurrent parties",
             "freedom from data races is checked by the Go race detector over a storage workload (a short one in the quick tier, a longer one in the thorough tier): testing, not proof",
         ],
